@@ -450,6 +450,129 @@ def flush_fin(ctx, pending):
     del pending[:]
 
 
+# ------------------------------------------------------------------------------------------------ tickets
+_TKEY = [bytearray(b"K" * 32)]
+
+
+def _victim_session(h="sha256"):
+    """a victim with client certificate completes TLS 1.3 and receives session tickets; returns its Session"""
+    cs, ss = _settings(4), _settings(4)
+    if h == "sha384":
+        cs.cipherNames = ["aes256gcm"]
+        ss.cipherNames = ["aes256gcm"]
+    else:
+        cs.cipherNames = ["aes128gcm"]
+        ss.cipherNames = ["aes128gcm"]
+    ss.ticketKeys = [bytearray(k) for k in _TKEY]
+    ch, k = lab.creds("rsa")
+    vch, vk = lab.creds("client_rsa")
+    L = lab.Lab()
+    L.start_client(lambda c: c.handshakeClientCert(certChain=vch, privateKey=vk, settings=cs, async_=True))
+    L.start_server(lambda c: c.handshakeServerAsync(certChain=ch, privateKey=k, settings=ss, reqCert=True))
+    L.run()
+    if L.client.state != "done" or L.server.state != "done":
+        return None
+    L.read("client", max=0, min=0)          # NewSessionTicket messages
+    se = L.client.conn.session
+    return se if se.tickets else None
+
+
+def ticket_case(ctx, case, pending):
+    """An attacker (no resumption secret unless mode == 'honest') offers the victim's ticket.
+    mode: honest | badbinder | hash | expired | rotated ; own: attacker's own client certificate or None."""
+    import copy
+    import time as _time
+    from tlslite import tlsconnection as TC
+    mode, own = case["mode"], case.get("own")
+    vs = _victim_session()
+    if vs is None:
+        ctx.count("not-exercised:ticket")
+        return
+    victim_fp = lab.creds("client_rsa")[0].getFingerprint()
+    sess = copy.copy(vs)
+    sess.tickets = list(vs.tickets)
+    if mode != "honest":
+        # the attacker saw the ticket on the wire but does not know the resumption master secret
+        sess.resumptionMasterSecret = bytearray(b"\x5a" * len(vs.resumptionMasterSecret))
+    cs, ss = _settings(4), _settings(4)
+    cs.cipherNames = ["aes256gcm"] if mode == "hash" else ["aes128gcm"]
+    ss.cipherNames = list(cs.cipherNames)
+    ss.ticketKeys = [bytearray(b"R" * 32)] if mode == "rotated" else [bytearray(k) for k in _TKEY]
+    if mode == "expired":
+        ss.ticketLifetime = 1
+    ch, k = lab.creds("rsa")
+    ckw = {}
+    if own:
+        och, ok_ = lab.creds(own)
+        ckw = dict(certChain=och, privateKey=ok_)
+    L = lab.Lab()
+    L.start_client(lambda c: c.handshakeClientCert(session=sess, settings=cs, async_=True, **ckw))
+    L.start_server(lambda c: c.handshakeServerAsync(certChain=ch, privateKey=k, settings=ss, reqCert=True))
+    seen = {"psk_ext": False}
+
+    def chook(kind, msg):
+        if type(msg).__name__ == "ClientHello" and msg.extensions and \
+                type(msg.extensions[-1]).__name__ == "PreSharedKeyExtension":
+            seen["psk_ext"] = True
+        return [msg]
+    lab.hook_messages(L.client.conn, chook)
+    real_time = TC.time
+
+    class _T(object):
+        def __getattr__(self, n):
+            return getattr(real_time, n)
+
+        @staticmethod
+        def time():
+            return real_time.time() + (100 if mode == "expired" else 0)
+    TC.time = _T()
+    try:
+        L.run()
+    finally:
+        TC.time = real_time
+    so = _out(L.server)
+    se = L.server.conn.session
+    chain = se.clientCertChain if se is not None else None
+    if not seen["psk_ext"]:
+        ctx.count("not-exercised:ticket")
+        return
+    who = "none"
+    if chain:
+        who = "victim" if chain.getFingerprint() == victim_fp else "own"
+    ctx.count("site:ticket")
+    ctx.count("class:ticket-%s-%s" % (mode, "owncert" if own else "nocert"))
+    ctx.case(key=("ticket", mode, own), nontrivial=mode != "honest")
+    # oracle: the victim's chain may be attributed only when the resumption binder was a proof (honest run)
+    if so == "done" and who == "victim" and mode != "honest":
+        ctx.violation("c05:tls13-server-attributes-ticket-chain-without-binder",
+                      "TLS 1.3 server completed and recorded the client chain stored in an offered session ticket although the "
+                      "peer did not prove the ticket's resumption secret (%s, attacker %s client certificate)"
+                      % (mode, "with own" if own else "without"), {"kind": "ticket", "case": case})
+    if so == "done" and who == "own" and not own:
+        ctx.violation("c05:tls13-server-attributes-unpresented-chain", "chain recorded that nobody presented",
+                      {"kind": "ticket", "case": case})
+    if mode == "honest" and (so != "done" or who != "victim"):
+        ctx.disagree("ticket", case, "done who=victim", so + " who=" + who)
+    tk = {"honest": "good", "badbinder": "badbinder", "hash": "hash", "expired": "expired", "rotated": "unknown"}[mode]
+    line = "hs13t tk:%s own:%s" % (tk, "cert" if own else "none")
+    impl = ("done" if so == "done" else "fail " + so) + " who=" + who
+    pending.append((case, line, impl))
+
+
+def flush_ticket(ctx, pending):
+    lc = ctx.lean()
+    if lc is None or not pending:
+        del pending[:]
+        return
+    for (case, line, impl), mo in zip(pending, lc.batch([p[1] for p in pending])):
+        t = mo.split(" ")
+        m = ("done" if t[0] == "done" else "fail " + t[1]) + " " + t[-1]
+        if m != impl:
+            ctx.disagree("ticket", dict(case, line=line), m, impl)
+    ctx.compared(len(pending))
+    del pending[:]
+
+
 # ------------------------------------------------------------------------------------------------
 def plan_other(thorough):
     srp = [{"mode": m, "ver": v} for v in ((1, 3) if not thorough else (1, 2, 3))
@@ -491,6 +614,10 @@ def run_other(ctx):
     for c in fin:
         fin_checker_case(ctx, c, pend)
     flush_fin(ctx, pend)
+    for mode in ("honest", "badbinder", "hash", "expired", "rotated"):
+        for own in (None, "client_ecdsa"):
+            ticket_case(ctx, {"mode": mode, "own": own}, pend)
+    flush_ticket(ctx, pend)
 
 
 def replay_other(ctx, inp):
@@ -506,3 +633,5 @@ def replay_other(ctx, inp):
         fin_checker_case(ctx, case, [])
     elif kind == "srpf":
         srp_formulas(ctx)
+    elif kind == "ticket":
+        ticket_case(ctx, case, [])
